@@ -1,5 +1,7 @@
+import Props.GenJoinTail
 import Props.GenHeads
 import Props.GenJoin
 open Model.SlicesGen
 #print axioms findHeads_eq
 #print axioms logDifference_eq
+#print axioms joinTail_eq
